@@ -218,6 +218,25 @@ def main(argv=None):
     for r in results:
         hashes.update(r.get("hashes") or {})
     targets = sorted({t for r in results for t in (r.get("targets") or [])})
+
+    def _executed(t):
+        """was the target's source executed by a scenario?  (methods of nested classes are recorded without the outer
+        class name)"""
+        if t in hashes:
+            return t
+        parts = t.split(".")
+        if len(parts) >= 4:
+            alt = ".".join(parts[:-3] + parts[-2:])
+            if alt in hashes:
+                return alt
+        return None
+
+    not_exercised = [t for t in targets if _executed(t) is None]
+    if args.only is None and not errors:
+        for t in not_exercised:
+            # a function named as being under contract that no scenario ever reaches is an over-claim: checker error
+            print(f"CHECKER-ERROR target={t} is listed as under contract but its source was never executed by a scenario")
+            rc = max(rc, 3) if rc != 1 else 1
     samples = []
     for e in list(obs.values())[:: max(1, len(obs) // 12)][:12]:
         samples.append({"obligation": e["name"], "kind": e["kind"], "vcs": len(e["vcs"]), "status": e["status"], "bounded": e["bounded"]})
@@ -246,7 +265,8 @@ def main(argv=None):
         "backends": backends,
         "solver_seconds": round(sum(v["time"] for v in all_vcs), 3),
         "slowest_vcs": [{"obligation": v["name"], "seconds": v["time"], "backend": v["backend"]} for v in sorted(all_vcs, key=lambda v: -v["time"])[:5]],
-        "functions_under_contract": {t: hashes.get(t) for t in targets},
+        "functions_under_contract": {t: hashes.get(_executed(t)) for t in targets if _executed(t) is not None},
+        "targets_named_but_not_exercised": not_exercised,
         "functions_executed_from_source": hashes,
         "vacuity": {"cover_checks": len(covers), "covers_ok": sum(1 for e in covers if e["status"] == "proved"), "canaries": len(canaries), "canaries_refuted_as_required": sum(1 for e in canaries if e["status"] == "proved")},
         "samples": samples,
